@@ -1,6 +1,8 @@
 //! C15: serialised distributions round-trip to equal, identically sampling values (DESIGN §5 C15).
 use crate::envelope::{classes, extra_cells, grid, random_cell};
 use crate::families::{build, Cell, Fam, Ft, Sampler, ALIAS_INT, CONTINUOUS, DISCRETE, TREE_INT};
+#[allow(unused_imports)]
+use crate::families::Ft as _FtUsed;
 use crate::report::{catch, Ctx, Violation};
 use crate::rng::{hseed, BaseRng, VRng};
 use rand::RngExt;
@@ -38,10 +40,16 @@ pub fn check_cell(cell: &Cell, seed: u64) -> Result<&'static str, (String, Strin
         Some(x) => x,
         None => return Ok("no_serde_impl"),
     };
+    let key = cell.key();
+    // a value that does not compare equal to itself (a NaN in its representation) can never "round-trip to a
+    // value that compares equal to the original", whatever the format
+    if s.eq_dyn(s.as_ref()) == Some(false) {
+        return Err(("not_equal".into(), format!("{key}: the value does not compare equal to itself (NaN in its internal representation {}), so no round trip can compare equal", s.debug())));
+    }
     if text != "null" && text.contains("null") {
+        // an infinite internal field: JSON cannot carry it (format limitation, counted)
         return Ok("non_finite_internal_field");
     }
-    let key = cell.key();
     let judge = |route: &str, r: Result<Box<dyn Sampler>, String>| -> Result<(), (String, String)> {
         let d = r.map_err(|e| ("deserialize_failed".to_string(), format!("{key}: {route} route: {e}; serialized form {text}")))?;
         match s.eq_dyn(d.as_ref()) {
@@ -66,14 +74,9 @@ pub fn check_cell(cell: &Cell, seed: u64) -> Result<&'static str, (String, Strin
     judge("value", via_value)?;
     match judge("text", via_text) {
         Ok(()) => Ok("ok"),
-        Err(e) => {
-            if cell.ft == Ft::F32 && !cell.fam.int_only() {
-                // JSON text carries f32 through f64 decimal: a text-route-only mismatch on f32 is a format artefact
-                Ok("f32_text_route_artefact")
-            } else {
-                Err(e)
-            }
-        }
+        // (serde_json with float_roundtrip prints the shortest decimal that reads back as the same f32 / f64:
+        // the text route is exact for both float types, so no allowance is made for f32)
+        Err(e) => Err(e),
     }
 }
 
